@@ -118,6 +118,15 @@ def confirm(d):
     setup()
     reset()
     rc, out = sh(["git", "-C", WT, "apply", patch])
+    if rc != 0:
+        # HEAD moved under the patch (later hook/fix commits): three-way apply, unstage, and keep the rebased diff
+        rc, out = sh(["git", "-C", WT, "apply", "-3", patch])
+        sh(["git", "-C", WT, "reset", "-q"])
+        if rc == 0:
+            rebased = sh(["git", "-C", WT, "diff"])[1]
+            open(os.path.join(d, "patch.rebased.diff"), "w").write(rebased)
+            patch = os.path.join(d, "patch.rebased.diff")
+            res["rebased"] = True
     res["applies"] = rc == 0
     if rc != 0:
         res["error"] = out[-500:]
